@@ -18,6 +18,8 @@ var pkgRules = map[string]Rule{
 	"log":                                         ruleLogger,
 }
 
+func init() { pkgRules["math/big"] = ruleBig }
+
 func (w *W) resultZero(fn *ssa.Function) Value {
 	return w.zeroResults(fn)
 }
